@@ -128,6 +128,7 @@ type DSOpts struct {
 	Target     target.Target  // optional instead of RecDev
 	Views      bool           // capture all encodings in RecDev
 	Name       string
+	Dev        *RecDev // optional: an existing recording device (a datastore re-opened over the same device)
 }
 
 // NewDS creates a datastore with a fresh cache instance name.
@@ -150,7 +151,10 @@ func (e *Env) NewDS(o DSOpts) *DS {
 	if sc == nil {
 		sc = e.Schema
 	}
-	dev := NewRecDev()
+	dev := o.Dev
+	if dev == nil {
+		dev = NewRecDev()
+	}
 	dev.CaptureViews = o.Views
 	var tgt target.Target = dev
 	if o.Target != nil {
@@ -162,6 +166,11 @@ func (e *Env) NewDS(o DSOpts) *DS {
 }
 
 // Close stops the datastore and deletes its cache instance.
+// Abandon stops using the datastore object without touching its cache instance (the process "died").
+func (d *DS) Abandon() {
+	d.cancel()
+}
+
 func (d *DS) Close() {
 	d.cancel()
 	d.Datastore.Stop()
